@@ -55,3 +55,11 @@ theorem card_filter_mirror (n : ℕ) (p : ℕ → Prop) [DecidablePred p] :
 theorem uniform_interval_probability (x y : ℝ) (_hx : 0 ≤ x) (_hxy : x ≤ y) (_hy : y ≤ 1) :
     MeasureTheory.volume (Set.Ioc x y) = ENNReal.ofReal (y - x) := by
   simp [Real.volume_Ioc]
+
+/-- L6 (used by C04): conservation by induction over steps.  If every step adds exactly `k s` units to the total weight
+(live + archived), then after `n` steps the total is the initial total plus the sum of the per-step amounts. -/
+theorem total_after_steps (total : ℕ → ℝ) (k : ℕ → ℝ) (h : ∀ s, total (s + 1) = total s + k s) (n : ℕ) :
+    total n = total 0 + ∑ s ∈ Finset.range n, k s := by
+  induction n with
+  | zero => simp
+  | succ m ih => rw [h m, ih, Finset.sum_range_succ]; ring
